@@ -89,6 +89,7 @@ add('for_var_shadows_global_const', 'let kk: int = 7', 'for kk in (range 0 3) {\
 add('array_slice', '', 'let a: array<int> = [10, 20, 30, 40, 50]\nlet sl: array<int> = (array_slice a 1 3)\n(println (array_length sl))\n(println (at sl 0))\n(println (at sl 2))', '3\n20\n40\n')
 add('float_literal_precision', '', 'let x: float = 1.00000001\nlet y: float = 1.00000002\n(println (< x y))\n(println (== x y))', 'true\nfalse\n')
 add('for_range_end_once', 'fn tre(x: int) -> int {\n (println "end")\n return x\n}\nshadow tre { assert true }', 'for i in (range 0 (tre 3)) {\n (println i)\n}', 'end\n0\n1\n2\n')
+add('block_shadow_selfref', '', 'let x: int = 5\nif (> x 1) {\n let x: int = (+ x 1)\n (println x)\n}\n(println x)', '6\n5\n')
 add('import_fnvalue', '', '(println "skip")', 'skip\n')
 
 
